@@ -215,6 +215,43 @@ def walrus (guard : Bool) (n : String) (value0 : E) (single : Bool) (t : Test) :
     let x := if single then value else named n value true
     cmp op (if guard then parenIfNeeded x else x) rhs p
 
+/-! ## values of the boolean fragment (for the semantic theorems about `combine`) -/
+
+structure Env where
+  name : String → Bool              -- value of a name / other atom used as a condition
+  recv : String → List Char         -- the string a receiver name is bound to
+
+def startsAny (s : List Char) (ps : List String) : Bool := ps.any fun p => p.toList.isPrefixOf s
+
+/-- value of the boolean fragment (`none` outside it) -/
+def evalB (env : Env) : E → Option Bool
+  | atom n _ => some (env.name n)
+  | call r ps _ => some (startsAny (env.recv r) ps)
+  | lnot x _ => (evalB env x).map (!·)
+  | bin .and l r _ => do let a ← evalB env l; let b ← evalB env r; pure (a && b)
+  | bin .or l r _ => do let a ← evalB env l; let b ← evalB env r; pure (a || b)
+  | ifx t c f _ => do let tv ← evalB env t; let cv ← evalB env c; let fv ← evalB env f; pure (if cv then tv else fv)
+  | _ => none
+
+/-- does this node match one of the two fold shapes *through an `and`* -/
+def andFoldHere : E → Bool
+  | bin .or (call r₁ _ _) (bin .and (call r₂ _ _) _ _) _ => r₁ == r₂
+  | bin .or (bin .and _ (call r₁ _ _) _) (call r₂ _ _) _ => r₁ == r₂
+  | _ => false
+
+/-- does the bottom-up pass meet that shape anywhere (judged on the node as it is when the pass reaches it) -/
+def andFolds : E → Bool
+  | atom .. => false
+  | call .. => false
+  | neg x _ => andFolds x
+  | lnot x _ => andFolds x
+  | bin k l r p => andFolds l || andFolds r || andFoldHere (bin k (combine true l) (combine true r) p)
+  | cmp _ l r _ => andFolds l || andFolds r
+  | chain l _ x _ r _ => andFolds l || andFolds x || andFolds r
+  | ifx t c f _ => andFolds t || andFolds c || andFolds f
+  | named _ v _ => andFolds v
+  | tup a b _ => andFolds a || andFolds b
+
 /-! ## rendering (what libcst's code generator prints for the tree) -/
 
 def Cop.str : Cop → String
